@@ -4,10 +4,12 @@ import (
 	"bytes"
 	"context"
 	"encoding/json"
+	"errors"
 	"fmt"
 	"io"
 	"net/http"
 	"sync"
+	"sync/atomic"
 	"time"
 
 	"github.com/thushan/olla/internal/adapter/translator"
@@ -504,6 +506,17 @@ func (a *Application) executeTranslatedStreamingRequest(
 		return fmt.Errorf("request cancelled while waiting for backend headers: %w", ctx.Err())
 	}
 
+	// the proxy gave up without ever answering (no reachable backend, connection refused or reset):
+	// nothing has been sent to the client yet, so report the failure instead of streaming an
+	// empty but well-formed message with a 200
+	if !streamRecorder.answered.Load() {
+		proxyErr := <-proxyErrChan
+		if proxyErr == nil {
+			proxyErr = errors.New("backend closed the connection without a response")
+		}
+		return fmt.Errorf("proxy request failed: %w", proxyErr)
+	}
+
 	// handle backend errors before starting sse stream
 	if streamRecorder.status >= 400 {
 		a.handleStreamingBackendError(w, pipeReader, streamRecorder, proxyErrChan, pr, trans)
@@ -852,6 +865,7 @@ type streamingResponseRecorder struct {
 	headersReady chan struct{}
 	closeOnce    sync.Once
 	status       int
+	answered     atomic.Bool // set once the proxy has written a status or body: the backend really answered
 }
 
 func newStreamingResponseRecorder(w io.Writer) *streamingResponseRecorder {
@@ -874,12 +888,14 @@ func (r *streamingResponseRecorder) ensureHeadersReady() {
 }
 
 func (r *streamingResponseRecorder) Write(data []byte) (int, error) {
+	r.answered.Store(true)
 	r.ensureHeadersReady()
 	return r.writer.Write(data)
 }
 
 func (r *streamingResponseRecorder) WriteHeader(statusCode int) {
 	r.status = statusCode // Capture status code to detect backend errors
+	r.answered.Store(true)
 	r.ensureHeadersReady()
 	// Don't propagate the status write for streaming; just mark headers sent.
 }
